@@ -106,3 +106,40 @@ package index
 //@   may_panic
 //@   ensures[cached_buckets_are_dropped_after_the_new_snapshot_is_in_place] calls(s.family.GetSnapshot) != old(calls(s.family.GetSnapshot)) ==> (s.snapshot != nil && s.bucketCache.purgedAt > s.snapshot.takenAt)
 //@ end
+
+//@ # ---- get-or-create (C09): looking a name up and creating its id are two critical sections of the store lock, so
+//@ # the creating section cannot rely on the lookup: a name that is in the in-memory dictionaries by then keeps its id,
+//@ # nothing is generated for it and the dictionaries are left as they are ---------------------------------------------
+//@ ghost field github.com/lindb/lindb/pkg/imap.IntMap.present map[uint32]bool
+//@ ghost field github.com/lindb/lindb/pkg/imap.IntMap.view map[uint32]ref
+//@ func github.com/lindb/lindb/pkg/imap.IntMap.Get
+//@   assume
+//@   modifies nothing
+//@   ensures ok == m.present[key] && (ok ==> (value != nil && value == m.view[key]))
+//@ end
+//@ func github.com/lindb/lindb/pkg/imap.IntMap.Put
+//@   assume
+//@   modifies m.present, m.view
+//@   ensures m.present == store(old(m.present), key, true) && m.view == store(old(m.view), key, value)
+//@ end
+//@ func github.com/lindb/lindb/pkg/strutil.ByteSlice2String
+//@   assume
+//@   modifies nothing
+//@   ensures result == str(bytes)
+//@ end
+//@ func indexKVStore.getValueFromMem
+//@   prop C09
+//@   modifies nothing
+//@   ensures[a_lookup_answers_from_the_dictionary] result1 == (mem != nil && mem.present[bucketID] && has(cast(mem.view[bucketID], "map[string]uint32"), str(key))) && (result1 ==> result0 == cast(mem.view[bucketID], "map[string]uint32")[str(key)])
+//@ end
+//@ func indexKVStore.createValue@createFn
+//@   modifies nothing
+//@ end
+//@ func indexKVStore.createValue
+//@   prop C09
+//@   requires s.mutable != nil && createFn != nil
+//@   modifies *
+//@   ensures[a_name_that_is_already_in_the_dictionary_keeps_its_id] old((s.mutable.present[bucketID] && has(cast(s.mutable.view[bucketID], "map[string]uint32"), str(key)))) ==> (err == nil && !isNew && id == old(cast(s.mutable.view[bucketID], "map[string]uint32")[str(key)]) && calls(createFn) == old(calls(createFn)))
+//@   ensures[also_when_it_waits_in_the_dictionary_being_flushed] (!old((s.mutable.present[bucketID] && has(cast(s.mutable.view[bucketID], "map[string]uint32"), str(key)))) && old((s.immutable != nil && s.immutable.present[bucketID] && has(cast(s.immutable.view[bucketID], "map[string]uint32"), str(key))))) ==> (err == nil && !isNew && id == old(cast(s.immutable.view[bucketID], "map[string]uint32")[str(key)]) && calls(createFn) == old(calls(createFn)))
+//@   ensures[an_id_is_generated_at_most_once_per_call] (calls(createFn) == old(calls(createFn)) || calls(createFn) == old(calls(createFn)) + 1) && (isNew ==> (err == nil && calls(createFn) == old(calls(createFn)) + 1))
+//@ end
